@@ -185,3 +185,18 @@ CLAIMS["C19"] = {
     "technique": "static analysis: who-may-call lint for entropy sources, set-type inference + iteration lint, "
                  "copy/alias check at storage sites, statement-order provenance check",
 }
+
+CLAIMS["C20"] = {
+    "text": "Decides the finite part exhaustively and the ordering part structurally: the 6x4 composition table, read from the "
+            "syntax tree and interpreted by an independent single-qubit Clifford model under 'list = matrix product', is "
+            "exactly the 24-element group (complete, closed, pairwise inequivalent mod phase); name->matrix bindings "
+            "constant-fold to the denoted elements; every consumer of a wrapper list implements 'last listed acts first' "
+            "(unwrap reversed; matrix accumulations in list order; a@b paired with a+b; merge as existing+new); neither "
+            "compiler accepts the wrapper itself; the lookup rejects by falling through to raise. Does not decide "
+            "check_equivalent_unitaries numerically.",
+    "ref": "DESIGN.md §5.20",
+    "note": "Trusted: class names Identity/Hadamard/Phase/PhaseDagger/SigmaX/Y/Z denote the textbook unitaries (model side); "
+            "numpy matmul; check_equivalent_unitaries.",
+    "technique": "static analysis: constant folding of literal tables + finite-group model (exhaustive), direction calculus "
+                 "over accumulation loops, accepted-table lint, all-returns-guarded check",
+}
